@@ -283,6 +283,7 @@ func worldOp(out *bufio.Writer, inst **lmd.VerifInstance, op string, raw []byte,
 		res["log"] = log
 		res["commands"] = cmds
 		res["batches"] = curWorld.backends[line.Backend].TakenBatches()
+		res["replies"] = curWorld.backends[line.Backend].TakenReplies()
 	case "commands":
 		if curWorld == nil {
 			return fail("no world")
